@@ -263,3 +263,27 @@ Lemma bom_regression :
   serials_of (ingest py_float_ok wtab false (chunks_of_bytes w_bom_text)) = [1; 2]%Z /\
   serials_of (ingest py_float_ok wtab false (chunks_of_bytes (bom_bytes ++ w_bom_text))) = [1; 2]%Z.
 Proof. split; vm_compute; reflexivity. Qed.
+
+(* ---- --drop-water with serial numbers shared by waters and non-waters ------------- *)
+
+Definition w_dupserial : list string := eol
+  [ "MODEL        1";
+    "ATOM      1  N   ALA A   1      11.000  12.000  13.000  1.00  0.00           N";
+    "ATOM      2  CA  ALA A   1      12.000  12.000  13.000  1.00  0.00           C";
+    "HETATM    1  O   HOH A 500      20.000  12.000  13.000  1.00  0.00           O";
+    "HETATM    2  O   TIP A 501      21.000  12.000  13.000  1.00  0.00           O";
+    "ENDMDL";
+    "MODEL        2";
+    "HETATM    2  O   WAT A 500      30.000  12.000  13.000  1.00  0.00           O";
+    "ENDMDL" ].
+
+Lemma dupserial_example :
+  guard2 py_float_ok wtab (filter (fun l => negb (is_water_line2 py_float_ok l)) w_dupserial) = true /\
+  existsb (raises py_float_ok) w_dupserial = false /\
+  map (fun a => (a_serial a, a_resname a))
+      (match ingest py_float_ok wtab true w_dupserial with Done rs => all_atoms rs | _ => [] end) =
+    [(1, "ALA"); (2, "ALA"); (2, "TIP")]%Z /\
+  serials_of (ingest py_float_ok wtab false w_dupserial) = [1; 2; 1; 2]%Z.
+Proof.
+  split; [vm_compute; reflexivity|]. split; [vm_compute; reflexivity|]. split; vm_compute; reflexivity.
+Qed.
